@@ -7,8 +7,8 @@ src=/tmp/wt2-$p$x/_seed/$x
 dst=/tmp/seed2/$p/$x
 [ -f "$src/patch.diff" ] || { echo "no seed $src"; exit 2; }
 mkdir -p "$dst" && cp "$src"/* "$dst"/ 2>/dev/null
-cd /verif
-tools/try_seed_wt.sh "$dst/patch.diff" quick "$p" "$@" > "$dst/detect.txt" 2>&1
-tools/verify_seed.sh "$dst" > "$dst/verify.out" 2>&1
+cd ${VERIF_DIR:-/verif}
+/verif/tools/try_seed_wt.sh "$dst/patch.diff" quick "$p" "$@" > "$dst/detect.txt" 2>&1
+/verif/tools/verify_seed.sh "$dst" > "$dst/verify.out" 2>&1
 grep -m1 '^{"seed"' "$dst/verify.out" > "$dst/verify.json"
 echo "== $p-$x: $(grep -E '^== ' $dst/detect.txt | tr '\n' ' ') | $(cat $dst/verify.json)"
